@@ -303,6 +303,12 @@ func (s *sshSimulatorService) Handle(ctx context.Context, conn net.Conn) error {
 						}
 
 						payload := decoder.String()
+						if decoder.LastError() != nil {
+							// malformed payload (a string that does not fit): a failed read does not
+							// advance, the loop would never end
+							break
+						}
+
 						payloads = append(payloads, payload)
 					}
 
@@ -325,6 +331,12 @@ func (s *sshSimulatorService) Handle(ctx context.Context, conn net.Conn) error {
 						}
 
 						payload := decoder.String()
+						if decoder.LastError() != nil {
+							// malformed payload (a string that does not fit): a failed read does not
+							// advance, the loop would never end
+							break
+						}
+
 						payloads = append(payloads, payload)
 					}
 
